@@ -138,8 +138,12 @@ namespace
         g_cur.res.key = "sanitizer:fatal:" + (scls.empty() ? std::string("unknown") : scls) + ":" + where;
         g_cur.res.detail = std::string("fatal error (sanitizer report / assertion / abort, process killed) ") + (g_cur.generating ? "while generating the workload" : "during op#" + std::to_string(vw::g_current_op)) + "\n" + sum + text.substr(0, 600);
         g_cur.res.st = vsim::current_stats();
-        if (!g_cur.replaying && g_args.gates("sanitizer"))
-            g_cur.res.replay_path = write_replay("sanitizer", g_cur.res.key, g_cur.res.detail);
+        // a run that kills the process fails whatever check is running (class "crash" unless the check
+        // gates sanitizer reports itself); the replay file says what stopped it
+        if (!g_args.gates("sanitizer"))
+            g_cur.res.cls = "crash";
+        if (!g_cur.replaying)
+            g_cur.res.replay_path = write_replay(g_cur.res.cls, g_cur.res.key, g_cur.res.detail);
         vh::print_result(g_cur.res, true);
         g_agg.print();
     }
